@@ -493,8 +493,27 @@ def _coef(t, V):
     return fr if is_dyadic(fr, 24) else None
 
 
+class RenamedSDE(nn.Module):
+    """The same SDE with its drift and diffusion under other method names (to be announced through `names=`): the
+    inner module is a registered sub-module, so `parameters()` are the very same tensors."""
+
+    def __init__(self, inner):
+        super().__init__()
+        self.inner = inner
+        self.noise_type, self.sde_type = inner.noise_type, inner.sde_type
+
+    def drift_fn(self, t, y):
+        return self.inner.f(t, y)
+
+    def diffusion_fn(self, t, y):
+        return self.inner.g(t, y)
+
+
+RENAMES = dict(drift="drift_fn", diffusion="diffusion_fn")
+
+
 def traced_adjoint_run(sde, y0, ts, base_bm, dt, method, adjoint_method, loss_fn, grad_inputs, tick, V=None,
-                       adjoint_params=None, tick_offset=0, **kwargs):
+                       adjoint_params=None, tick_offset=0, renamed=False, **kwargs):
     """Run the REAL sdeint_adjoint forward + backward with a recording Brownian proxy and a recorder around
     BaseSDESolver.integrate.  Returns (ys, grads, events) where events are dicts in ticks:
        int: ts, sidx (1-based index j with state-part == ys[j] bit for bit, 0 if none), lam (Fraction / None)
@@ -522,6 +541,11 @@ def traced_adjoint_run(sde, y0, ts, base_bm, dt, method, adjoint_method, loss_fn
     kw = dict(kwargs)
     if adjoint_params is not None:
         kw["adjoint_params"] = adjoint_params
+    if renamed and hasattr(sde, "f") and hasattr(sde, "g") and isinstance(sde, nn.Module):
+        # the same call through the `names=` option (C16: equivalent interfaces): values, gradients and the tensors that
+        # receive gradients must be the same
+        sde = RenamedSDE(sde)
+        kw["names"] = dict(RENAMES)
     with record_integrate(raw, annotate), quiet():
         ys = torchsde.sdeint_adjoint(sde, y0, ts, bm=rb, dt=dt, method=method, adjoint_method=adjoint_method, **kw)
         holder["ys"] = ys.detach()
